@@ -503,9 +503,7 @@ class Scanner(AsyncScript, ABC):
     async def teardown(self) -> None:
         await self.transport.close()
 
-        if self.db_handler is not None:
-            # Close the DB handler that was opened in `setup`
-            await self.db_handler.disconnect()
+        # The DB handler is closed by `_db_finish_run_meta()` after the run meta was completed.
 
         if self.dumpcap:
             await self.dumpcap.stop()
